@@ -18,6 +18,21 @@ Theorem C13_rejects : forall (H : list N -> list N), (forall x, len (H x) = 16) 
   exists e, s_reveal H t v secret rv = Err e.
 Proof. exact reveal_rejects. Qed.
 
+(** the complete classification: the four classes are exhaustive and exclusive, each with its
+    exact error value (the reported length is the decrypted field itself) or, in the accepting
+    class, exactly the announced octets handed to the format of the attribute type *)
+Theorem C13_reveal_classes : forall (H : list N -> list N), (forall x, len (H x) = 16) ->
+  forall t v secret rv,
+  let p := s_decrypt H t secret rv v in
+  let L := fld 2 0 p in
+  (len v = 0 -> s_reveal H t v secret rv = Err EmptyHiddenAVP) /\
+  (len v <> 0 -> len v mod 16 <> 0 -> s_reveal H t v secret rv = Err MisalignedHiddenAVP) /\
+  (len v <> 0 -> len v mod 16 = 0 -> (L < 6 \/ 1023 < L \/ len p - 2 < L - 6) ->
+     s_reveal H t v secret rv = Err (InvalidOriginalAVPLength L)) /\
+  (len v <> 0 -> len v mod 16 = 0 -> 6 <= L -> L <= 1023 -> L - 6 <= len p - 2 ->
+     s_reveal H t v secret rv = s_payload t (octs (L - 6) 2 p)).
+Proof. exact reveal_cases. Qed.
+
 Theorem C13_reveal_total_md5 : forall t v secret rv,
   exists r, m_reveal md5 (AHidden t v) secret rv = Val r /\
             (forall a, r = Ok a -> attr_type a = t /\ is_hidden a = false).
@@ -29,4 +44,5 @@ Proof. eexists. vm_compute. reflexivity. Qed.
 
 Print Assumptions C13_reveal_total.
 Print Assumptions C13_rejects.
+Print Assumptions C13_reveal_classes.
 Print Assumptions C13_reveal_total_md5.
